@@ -10,6 +10,8 @@
 (*   T TAB   Cn BEL (named control)   Cx 0x01 (other control)               *)
 (*   U e-acute (C3 A9, printable)   O U+0085 (C2 85, category "other")      *)
 (*   I 0xFF (not valid UTF-8)                                               *)
+(*   S the six characters ` (esc)` as one unit: line content that looks     *)
+(*     like the marker scrut itself appends                                 *)
 (* Encode(mode, s) is the *intended* escaper: when a line has to be marked  *)
 (* `(escaped)`, every backslash is doubled.  Decode is the documented       *)
 (* reader.  TLC checks  Decode(Encode(s)) = s  and  Printable(Encode(s)).   *)
@@ -18,12 +20,14 @@ EXTENDS Naturals, Sequences, FiniteSets, TLC
 
 CONSTANT N
 
-Classes == {"P", "Px", "Ph", "P0", "Pe", "Pn", "B", "T", "Cn", "Cx", "U", "O", "I"}
+Classes == {"P", "Px", "Ph", "P0", "Pe", "Pn", "B", "T", "Cn", "Cx", "U", "O", "I", "S"}
+MarkShort == <<32, 40, 101, 115, 99, 41>>                       \* ` (esc)`
+MarkLong  == <<32, 40, 101, 115, 99, 97, 112, 101, 100, 41>>    \* ` (escaped)`
 Bytes(c) == CASE c = "P" -> <<122>> [] c = "Px" -> <<120>> [] c = "Ph" -> <<49>> [] c = "P0" -> <<48>>
               [] c = "Pe" -> <<116>> [] c = "Pn" -> <<110>> [] c = "B" -> <<92>> [] c = "T" -> <<9>>
               [] c = "Cn" -> <<7>> [] c = "Cx" -> <<1>> [] c = "U" -> <<195, 169>> [] c = "O" -> <<194, 133>>
-              [] c = "I" -> <<255>>
-AsciiPrintable(c) == c \in {"P", "Px", "Ph", "P0", "Pe", "Pn", "B"}
+              [] c = "I" -> <<255>> [] c = "S" -> MarkShort
+AsciiPrintable(c) == c \in {"P", "Px", "Ph", "P0", "Pe", "Pn", "B", "S"}
 UnicodeOther(c)   == c \in {"T", "Cn", "Cx", "O"}
 
 RECURSIVE Flat(_)
@@ -72,8 +76,17 @@ Decode(e) ==
             IF Len(e) >= 4 /\ e[3] \in 48..55 /\ e[4] \in 48..55
             THEN Cons(<<8 * (e[3] - 48) + (e[4] - 48)>>, Decode(SubSeq(e, 5, Len(e)))) ELSE ERR
         ELSE Cons(<<92, c>>, Decode(SubSeq(e, 3, Len(e))))
-\* what the written text denotes when read back as the kind it announces
-ReadBack(mode, s) == IF Marked(mode, s) THEN Decode(Encode(mode, s)) ELSE Encode(mode, s)
+\* the whole text scrut writes for a line, and what a reader of expectation text makes of it: ONE final marker is taken
+\* off (it announces the kind) and the rest is decoded; text without a final marker is the line itself
+Written(mode, s) == Encode(mode, s) \o (IF Marked(mode, s) THEN MarkLong ELSE <<>>)
+EndsWith(t, m) == Len(t) >= Len(m) /\ SubSeq(t, Len(t) - Len(m) + 1, Len(t)) = m
+ReadText(t) == IF EndsWith(t, MarkLong) THEN Decode(SubSeq(t, 1, Len(t) - Len(MarkLong)))
+               ELSE IF EndsWith(t, MarkShort) THEN Decode(SubSeq(t, 1, Len(t) - Len(MarkShort)))
+               ELSE t
+ReadBack(mode, s) == ReadText(Written(mode, s))
+\* deliberate deviation, modelled because the code has it (known finding C09 sfx_esc, same root): a line that needs no
+\* escaping but itself ends like the marker is written verbatim and so read as an escaped expectation
+Collides(mode, s) == ~Marked(mode, s) /\ (EndsWith(Flat(s), MarkShort) \/ EndsWith(Flat(s), MarkLong))
 
 \* printable: ASCII mode -> printable ASCII only; unicode mode -> no control bytes, and the only bytes >= 128
 \* are those of the printable two-byte character (C3 A9)
@@ -88,7 +101,8 @@ Init == mode \in {"ascii", "unicode"} /\ s \in UNION {[1..n -> Classes] : n \in 
 Next == UNCHANGED <<mode, s>>
 Spec == Init /\ [][Next]_<<mode, s>>
 
-Lossless  == ReadBack(mode, s) = Flat(s)
+Lossless  == ~Collides(mode, s) => ReadBack(mode, s) = Flat(s)
+CollisionIsReal == Collides(mode, s) => ReadBack(mode, s) # Flat(s)
 PrintOK   == Printable(mode, Encode(mode, s))
 \* unmarked text is the line itself
 Unmarked  == ~Marked(mode, s) => Encode(mode, s) = Flat(s)
